@@ -5,7 +5,7 @@
    moving between carriers "surfaces as exactly one accepted connection whose stream continues" depends on
    kcp-go/smux keyed by the ClientID address; it is observed by black-box runs (C18, C01), not proved. *)
 From Coq Require Import List NArith Bool Arith.
-From Snow Require Import Lib.Wire Model.Encap Proofs.EncapProofs Model.CarrierLayer Proofs.CarrierProofs.
+From Snow Require Import Lib.Wire Model.Encap Proofs.EncapProofs Model.CarrierLayer Proofs.CarrierProofs Proofs.CarrierOnceProofs.
 Import ListNotations.
 Open Scope N_scope.
 
@@ -33,6 +33,24 @@ Theorem C05_downstream_wire : forall ops i k sc,
 Proof.
   intros ops i k sc Hk. apply wire_decodes. apply (si_wire _ (srun_inv ops) i k Hk).
 Qed.
+
+(* Exactly once and in order, across any number of carriers of a session: for every ClientID c the packets
+   accepted by WriteTo for c are, IN ORDER, the packets consumed from c's queue so far followed by those still
+   queued; each consumed packet went to exactly ONE carrier (the one recorded in the log; or was lost because
+   WriteData failed, which closes that carrier), what carrier i was written is exactly the log entries owned
+   by i, and an owning carrier presented token and the queue's ClientID. *)
+Theorem C05_downstream_exactly_once_in_order : forall ops c,
+  acc_for c (accepted (srun ops)) = cons_for c (consumed (srun ops)) ++ q_lookup c (sendqs (srun ops)).
+Proof. intros ops. apply (oi_fifo _ (srun_oinv ops)). Qed.
+
+Theorem C05_carrier_gets_its_log_entries : forall ops i k,
+  nth_error (carriers (srun ops)) i = Some k -> k_down k = down_of i (consumed (srun ops)).
+Proof. intros ops. apply (oi_down _ (srun_oinv ops)). Qed.
+
+Theorem C05_consumer_presented_the_clientid : forall ops i c p,
+  In (Some i, c, p) (consumed (srun ops)) ->
+  exists k, nth_error (carriers (srun ops)) i = Some k /\ k_cid k = c /\ ~ pre_open k.
+Proof. intros ops. apply (oi_owner _ (srun_oinv ops)). Qed.
 
 (* A carrier that has not (yet) presented token and ClientID has no effect at all ... *)
 Theorem C05_no_token_no_effect : forall ops i k,
